@@ -16,6 +16,8 @@ pub enum PItem {
     Cmd(Cmd),
     Unimpl { op: u8, k: u8, extras: u8, vlen: u8 },
     Quit { quiet: bool },
+    /// a request whose body exceeds the item size limit (whole body present)
+    Oversize { op: u8, extra: u16 },
 }
 
 #[derive(Clone, Debug, Serialize, Deserialize, PartialEq, Eq, Hash)]
@@ -73,6 +75,7 @@ pub fn item_strategy(with_unimpl: bool) -> BoxedStrategy<PItem> {
         (1, any::<bool>().prop_map(|quiet| PItem::Quit { quiet }).boxed()),
     ];
     if with_unimpl {
+        v.push((1, (any::<u8>(), prop_oneof![Just(0u16), Just(1), 0u16..6000]).prop_map(|(op, extra)| PItem::Oversize { op, extra }).boxed()));
         v.push((
             3,
             (any::<u8>(), any::<u8>(), prop_oneof![Just(0u8), Just(4u8)], prop_oneof![Just(0u8), 1u8..10])
@@ -110,6 +113,14 @@ impl PipeCase {
                     frames::SFrame::Unimpl { op: *op, k: *k, extras: *extras, vlen: *vlen }.to_frame(65536, i as u32)
                 }
                 PItem::Quit { quiet } => wire::simple(if *quiet { wire::QUITQ } else { wire::QUIT }, i as u32),
+                PItem::Oversize { op, extra } => {
+                    let op = frames::IMPLEMENTED[crate::sym::pick(*op, frames::IMPLEMENTED.len())];
+                    let mut f = frames::valid_frame(op, b"big", &[], 0, 0, 0, 1, 0, i as u32);
+                    let total = ITEM_LIMIT as usize + 1 + *extra as usize;
+                    f.body.resize(total, 0x42);
+                    f.body_len = total as u32;
+                    f
+                }
             })
             .collect()
     }
@@ -118,7 +129,10 @@ impl PipeCase {
     }
 }
 
-pub const RULE: &str = "proptest pipelines of 1..30 requests (every implemented opcode loud and quiet over 4 keys, unimplemented known opcodes touch/gat/sasl, quit/quitq at any position; opaque = request index) are sent over one loopback connection to an in-process MemcacheTcpServer (current-thread or 2-worker runtime) as one segment, cut at every frame boundary, or at random cuts, with chunk boundaries enforced through the server-side receive queue. Oracle: responses carry strictly increasing request indices; a per-connection reference model decides for every request whether exactly one response / silence is due (loud: one; quiet mutation: only on error; quiet get: only on hit) and judges its content; after quit one response then EOF, after quitq EOF without response; nothing after either is answered or executed (store content read through an in-process side channel must equal the model's state at the quit). Completion is detected by a sentinel noop or EOF, never by a timeout. non-trivial = a quiet command that stays silent between two answered ones, or a quit that is not last";
+/// item size limit of the servers used by this check (small, so that oversized requests are cheap)
+pub const ITEM_LIMIT: u32 = 8192;
+
+pub const RULE: &str = "proptest pipelines of 1..30 requests (every implemented opcode loud and quiet over 4 keys, unimplemented known opcodes touch/gat/sasl, requests whose body exceeds the 8 KiB item limit, quit/quitq at any position; opaque = request index) are sent over one loopback connection to an in-process MemcacheTcpServer (current-thread or 2-worker runtime) as one segment, cut at every frame boundary, or at random cuts, with chunk boundaries enforced through the server-side receive queue. Oracle: responses carry strictly increasing request indices; a per-connection reference model decides for every request whether exactly one response / silence is due (loud: one; quiet mutation: only on error; quiet get: only on hit) and judges its content; after quit one response then EOF, after quitq EOF without response; nothing after either is answered or executed (store content read through an in-process side channel must equal the model's state at the quit). Completion is detected by a sentinel noop or EOF, never by a timeout. non-trivial = a quiet command that stays silent between two answered ones, or a quit that is not last";
 pub const ASSUME: &[&str] = &[
     "loopback TCP inside the harness process; chunk boundaries are enforced with FIONREAD on the accepted socket and TIOCOUTQ on the client socket",
     "harness-side waits (10 s) only yield 'inconclusive', never a violation",
@@ -150,7 +164,7 @@ pub fn judge(case: &PipeCase, run: &NetRun, server: &crate::l3::Server, prop: &s
         last = idx;
     }
     let by_idx = |i: usize| run.resps.iter().find(|r| r.opaque as usize == i);
-    let mut specs = SpecSet::new(65536);
+    let mut specs = SpecSet::new(ITEM_LIMIT);
     let upto = qpos.unwrap_or(frames.len());
     for i in 0..upto {
         let obs = by_idx(i);
@@ -178,6 +192,15 @@ pub fn judge(case: &PipeCase, run: &NetRun, server: &crate::l3::Server, prop: &s
                 }
             }
             PItem::Quit { .. } => unreachable!(),
+            PItem::Oversize { .. } => {
+                let ok = obs.map_or(false, |r| r.status == 3);
+                if !ok && (prop == "C12" || prop == "C13") {
+                    return Some((
+                        "oversized_not_answered".into(),
+                        format!("request {} (oversized {}) must be answered exactly once with 'too large': got {}", i, wire::opname(frames[i].opcode), obs.map(|r| r.short()).unwrap_or_else(|| "(nothing)".into())),
+                    ));
+                }
+            }
         }
     }
     if prop != "C12" {
@@ -243,7 +266,7 @@ pub fn run_case(case: &PipeCase, prop: &'static str) -> CaseReport {
         _ => case.cuts.iter().map(|c| (*c as usize * stream.len()) >> 16).collect(),
     };
     let chunks = netpipe::chunks_of(&stream, &cuts);
-    let opts = ServerOpts { workers: case.workers as usize, ..ServerOpts::default() };
+    let opts = ServerOpts { workers: case.workers as usize, item_limit: ITEM_LIMIT, ..ServerOpts::default() };
     let server = match netpipe::start_server(opts) {
         Ok(s) => s,
         Err(e) => {
@@ -329,6 +352,12 @@ pub fn check(ctx: &mut Ctx) -> i32 {
         write_evidence(ctx, &acc, RULE, ASSUME, 1);
         print_summary(ctx, &acc);
         return EXIT_VIOLATION;
+    }
+    if let Some(code) = crate::props::l3phases::backpressure_phase(ctx, &acc, prop) {
+        if code != EXIT_OK {
+            write_evidence(ctx, &acc, RULE, ASSUME, 1);
+            return code;
+        }
     }
     write_evidence(ctx, &acc, RULE, ASSUME, 0);
     print_summary(ctx, &acc);
